@@ -409,7 +409,25 @@ def main_check(prop: str, tier: str, seed: int, replay: Optional[str]) -> int:
         mod.run(ctx, driver_ok)
         # 4. a broken obligation/correspondence without a failing input: widen the search
         if (ctx.mismatches or not ctx.lean_ok) and not ctx.failures and hasattr(mod, 'search'):
-            mod.search(ctx)
+            # time-boxed for every property (the modules have their own caps, this is the backstop): the widened
+            # search may not turn a quick check into a 20-minute run
+            import signal
+
+            class _SearchTimeout(BaseException):
+                pass
+
+            def _alarm(signum, frame):
+                raise _SearchTimeout()
+            cap = int(os.environ.get('VERIF_SEARCH_CAP', '150' if tier == 'quick' else '900'))
+            old_handler = signal.signal(signal.SIGALRM, _alarm)
+            signal.alarm(cap)
+            try:
+                mod.search(ctx)
+            except _SearchTimeout:
+                ctx.notes.append(f'widened search stopped at its time box ({cap} s)')
+            finally:
+                signal.alarm(0)
+                signal.signal(signal.SIGALRM, old_handler)
     except Timeout:
         print(f'TIMEOUT property={prop} after {ctx.elapsed():.0f}s', file=sys.stderr)
         write_evidence(ctx, mod, 0)
